@@ -1,5 +1,428 @@
-import Plonk.Model.System
+/-
+  C05 — "Prover exactness: it proves iff the compiled constraints hold" — ALGEBRAIC HALF.
+
+  What is proved here (all at full strength, no `_partial` theorem), about the model's own functions
+  `blindPoly`, `rangeScalar / logicScalar / fixedScalar / varScalar`, `rowHolds`, `quotientEvals`,
+  `permVec` (`Model/Prover.lean`, `Model/Verifier.lean`, `Model/Gate.lean`), over `F = ZMod R`:
+
+   1. `blind_agrees_on_domain`   blinding adds a multiple of `X^n − 1`: the blinded polynomials take
+                                 the witness values on the domain, whatever the blinders.
+   2. `divisible_iff_vanishes`   `(X^n − 1) ∣ N ↔ N(ω^i) = 0` for all `i < n`.
+   3. `components_of_weighted_sum`, `range_/logic_/fixed_/var_scalar_zero_iff`, `gate_sum_zero_iff`,
+      `gate_sum_bad_set`         from the challenge-weighted sums of the code to the individual
+                                 widget identities, i.e. to `Plonk.rowHolds`.
+   4. `numerator_at_root`, `numerator_on_table`, `quotient_entry_is_coset_eval`
+                                 the numerator polynomial at `ω^i` is the row value `N_i` of rows `i`
+                                 and `(i+1) mod n` (cyclic next row); an entry of the model's
+                                 `quotientEvals` is the value of `Num/(X^n − 1)` at the stored point;
+                                 `quotient_in_prove`: the arrays that `prove` builds do store these
+                                 values on the coset `g·⟨ω₈⟩` (index `i+8` wraps: cyclic next row).
+   5. `grand_product`            on the model's `permVec`.
+   6. `prover_exact_algebra` (+ `prover_exact_rows`, `prover_exact_interpolating`)
+                                 `X^n − 1` divides the numerator for all challenges of a grid
+                                 ⇔ every row identity holds on every row of the padded table (cyclic
+                                 next rows) ∧ `∏ num = ∏ den`.
+
+  Not in this file (other agents / glue):
+   * `∏ num = ∏ den` for random `β, γ` ⇔ the values respect the compiled copy classes.
+   * `quotient_len_rule` (documentation only, below): the code's detection rule `len > 7n`.
+   * unfolding `prove` itself (transcript, commitments, rounds 4–5) and tying its local arrays to the
+     ones of `quotient_in_prove` (they are syntactically the same expressions).
+
+  Forced hypotheses (findings):
+   * `Quot.SelReduced g` (`g.qrange, g.qlogic, g.qfixed, g.qvar < R`): the model's `rowHolds` tests
+     the raw `Nat` selector against `0`, the quotient uses its residue; for a non-canonical selector
+     (e.g. `R`) the two differ.  Rust `BlsScalar`s are always canonical, so this is a property of
+     the model's representation, not a defect of the code.
+   * "for all challenges outside an explicit finite bad set" is stated in grid form: vanishing on
+     any grid `S_α × S_ρ × S_λ × S_φ × S_ν` with `|S_α| ≥ 2` and more than `7 / 9 / 7 / 5` separation
+     challenges per axis (the degrees of the four weighted sums) suffices; `gate_sum_bad_set` gives
+     the per-axis bound on the exceptional challenges of a failing row.
+   * `blind_agrees_on_domain` needs no bound on the number of blinders (only `0 < n`, which
+     `Domain.new?` guarantees).
+-/
+import Plonk.Proofs.QuotientExamples
+import Plonk.Proofs.QuotientCoset
+
 namespace Plonk.Props.C05
-open Plonk
+open Plonk Plonk.Quot Polynomial
+
 theorem placeholder_consts : Generated.CIRCUIT_SIZE_PADDING = 6 ∧ Generated.ADDED_BLINDING_DEGREE = 6 := by decide
+
+/-! ### 1. blinding -/
+
+/-- **Blinding is invisible on the domain.** For a domain `d` of `Domain.new?` (size `n`, generator
+    `ω` a primitive `n`-th root of unity) and any list of blinders `b₀ b₁ …`:
+    `blindPoly d w bs = interp + (Σ_i b_i X^i)·(X^n − 1)` with `interp` the interpolant
+    `ofCoeffs (ifft w)`; hence, for a table column `w` of length `n`, the blinded polynomial takes
+    the value `w[i]` at `ω^i` for every `i < n`. -/
+theorem blind_agrees_on_domain (m : Nat) (d : Domain) (hd : Domain.new? m = some d)
+    (w bs : List Nat) :
+    0 < d.size ∧ IsPrimitiveRoot (toF d.groupGen) d.size ∧
+    toPoly (blindPoly d w bs) =
+      toPoly (Poly.ofCoeffs (d.ifft w)) + toPoly bs * (X ^ d.size - 1) ∧
+    (w.length = d.size → ∀ i < d.size,
+      (toPoly (blindPoly d w bs)).eval (toF d.groupGen ^ i) = toF (w.getD i 0)) := by
+  have h := Domain.new?_WF m d hd
+  exact ⟨h.size_pos, h.prim, by rw [toPoly_ofCoeffs]; exact toPoly_blindPoly h w bs,
+    fun hw i hi => eval_blindPoly h w bs hw i hi⟩
+
+/-- non-vacuity: a domain of size 2, a column of two values, three blinders -/
+example : ∃ d, Domain.new? 2 = some d ∧ ([3, 5] : List Nat).length = d.size ∧
+    ([7, 11, 13] : List Nat).length = 3 := by
+  obtain ⟨d, hd, hs⟩ := exists_domain_two
+  exact ⟨d, hd, by rw [hs]; rfl, rfl⟩
+
+/-! ### 2. divisibility by the vanishing polynomial -/
+
+/-- `X^n − 1` divides `N` iff `N` vanishes on the whole subgroup `{ω^i | i < n}` -/
+theorem divisible_iff_vanishes {ω : F} {n : ℕ} (hn : 0 < n) (hω : IsPrimitiveRoot ω n) (N : F[X]) :
+    (X ^ n - 1 : F[X]) ∣ N ↔ ∀ i < n, N.eval (ω ^ i) = 0 :=
+  Quot.divisible_iff_vanishes hn hω N
+
+example : ∃ (ω : F) (n : ℕ), 0 < n ∧ IsPrimitiveRoot ω n ∧ (X ^ n - 1 : F[X]) ∣ (X ^ n - 1) * X := by
+  obtain ⟨d, hd, hs⟩ := exists_domain_two
+  exact ⟨toF d.groupGen, d.size, (Domain.new?_WF 2 d hd).size_pos, (Domain.new?_WF 2 d hd).prim,
+    dvd_mul_right _ _⟩
+
+/-! ### 3. from the weighted sums to the components -/
+
+/-- **Bridge from the challenge-weighted sum to the individual identities.** If
+    `sep·(c₀ + c₁ sep² + … + c_k sep^{2k})` (`wsum cs sep`) vanishes for more than `2k+1` distinct
+    values of `sep`, every `cⱼ` is zero; conversely, if every component vanishes, the sum vanishes
+    for every `sep`. -/
+theorem components_of_weighted_sum (cs : List F) (S : Finset F) (hS : 2 * cs.length - 1 < S.card) :
+    ((∀ s ∈ S, wsum cs s = 0) → ∀ c ∈ cs, c = 0) ∧
+    ((∀ c ∈ cs, c = 0) → ∀ s : F, wsum cs s = 0) :=
+  ⟨Quot.components_of_weighted_sum cs S (by omega), fun h s => wsum_of_all_zero cs h s⟩
+
+example : 2 * ([1, 2, 3, 4] : List F).length - 1 < (Finset.univ : Finset F).card := by
+  rw [card_univ_F]; have := ten_lt_R; simp; omega
+
+/-- the model's `rangeScalar` is the weighted sum of the four `rangeComps`, with the code's weights:
+    it vanishes for all `sep` of a set of more than 7 field elements iff every component is `0` -/
+theorem range_scalar_zero_iff (e : Evals) (S : Finset F) (hS : 7 < S.card) :
+    (∀ sep : Nat, toF sep ∈ S → rangeScalar sep e = 0) ↔
+      allZero (rangeComps e.a e.b e.c e.d e.dw) = true :=
+  scalar_zero_iff (fun sep => rangeScalar sep e) (fun _ => fmul_lt _ _) _
+    (rangeComps_lt e.a e.b e.c e.d e.dw)
+    (fun sep => by rw [toF_rangeScalar, map_toF_rangeComps e.a e.b e.c e.d e.aw e.bw e.dw]) S
+    (by simp [rangeComps]; omega)
+
+/-- the same for `logicScalar` and the five `logicComps` (more than 9 challenges) -/
+theorem logic_scalar_zero_iff (e : Evals) (S : Finset F) (hS : 9 < S.card) :
+    (∀ sep : Nat, toF sep ∈ S → logicScalar sep e = 0) ↔
+      allZero (logicComps e.qc e.a e.aw e.b e.bw e.c e.d e.dw) = true :=
+  scalar_zero_iff (fun sep => logicScalar sep e) (fun _ => fmul_lt _ _) _
+    (logicComps_lt e.qc e.a e.aw e.b e.bw e.c e.d e.dw)
+    (fun sep => by rw [toF_logicScalar, map_toF_logicComps]) S (by simp [logicComps]; omega)
+
+/-- the same for `fixedScalar` and the four `fixedComps` (more than 7 challenges) -/
+theorem fixed_scalar_zero_iff (e : Evals) (S : Finset F) (hS : 7 < S.card) :
+    (∀ sep : Nat, toF sep ∈ S → fixedScalar sep e = 0) ↔
+      allZero (fixedComps e.ql e.qr e.qc e.a e.aw e.b e.bw e.c e.d e.dw) = true :=
+  scalar_zero_iff (fun sep => fixedScalar sep e) (fun _ => fmul_lt _ _) _
+    (fixedComps_lt e.ql e.qr e.qc e.a e.aw e.b e.bw e.c e.d e.dw)
+    (fun sep => by rw [toF_fixedScalar, map_toF_fixedComps]) S (by simp [fixedComps]; omega)
+
+/-- the same for `varScalar` and the three `varComps` (more than 5 challenges) -/
+theorem var_scalar_zero_iff (e : Evals) (S : Finset F) (hS : 5 < S.card) :
+    (∀ sep : Nat, toF sep ∈ S → varScalar sep e = 0) ↔
+      allZero (varComps e.a e.aw e.b e.bw e.c e.d e.dw) = true :=
+  scalar_zero_iff (fun sep => varScalar sep e) (fun _ => fmul_lt _ _) _
+    (varComps_lt e.a e.aw e.b e.bw e.c e.d e.dw)
+    (fun sep => by rw [toF_varScalar, map_toF_varComps]) S (by simp [varComps]; omega)
+
+example : 9 < (Finset.univ : Finset F).card := by rw [card_univ_F]; have := ten_lt_R; omega
+
+/-- **The weighted row expression and the model's row check.** For a gate with canonical widget
+    selectors and a grid of separation challenges with more than `7 / 9 / 7 / 5` values per axis, the
+    full row expression
+    `arith + q_range·rangeScalar(ρ) + q_logic·logicScalar(λ) + q_fixed·fixedScalar(φ) + q_var·varScalar(ν) + PI`
+    (`gateSumR`) vanishes on the whole grid iff `Plonk.rowHolds` is `true` — and then it vanishes for
+    every choice of the challenges. -/
+theorem gate_sum_zero_iff (g : Gate) (hg : SelReduced g) (a b c d an bn dn pi : Nat)
+    (Sr Sl Sf Sv : Finset F) (hr : 7 < Sr.card) (hl : 9 < Sl.card) (hf : 7 < Sf.card)
+    (hv : 5 < Sv.card) :
+    ((∀ ρ ∈ Sr, ∀ l ∈ Sl, ∀ φ ∈ Sf, ∀ ν ∈ Sv,
+      gateSumR (Quot.selF g) (wiresF a b c d an bn dn) (toF pi) ⟨ρ, l, φ, ν⟩ = 0) ↔
+      rowHolds g a b c d an bn dn pi = true) ∧
+    (rowHolds g a b c d an bn dn pi = true →
+      ∀ s : Seps F, gateSumR (Quot.selF g) (wiresF a b c d an bn dn) (toF pi) s = 0) :=
+  ⟨Quot.gate_sum_zero_iff g hg a b c d an bn dn pi Sr Sl Sf Sv hr hl hf hv,
+   fun h s => gate_sum_zero_of_rowHolds g hg a b c d an bn dn pi h s⟩
+
+/-- non-vacuity: an arithmetic + range row that holds (`1 + 2 − 3 = 0`, quads `0`), full grids -/
+example : SelReduced { ql := 1, qr := 1, qo := R - 1, qarith := 1, qrange := 1 } ∧
+    9 < (Finset.univ : Finset F).card ∧
+    rowHolds { ql := 1, qr := 1, qo := R - 1, qarith := 1, qrange := 1 } 0 0 0 0 0 0 0 0 = true ∧
+    rowHolds { ql := 1, qr := 1, qo := R - 1, qarith := 1 } 1 2 3 0 0 0 0 0 = true := by
+  refine ⟨⟨?_, ?_, ?_, ?_⟩, ?_, ?_, ?_⟩
+  · exact R_gt_one
+  · exact R_pos
+  · exact R_pos
+  · exact R_pos
+  · rw [card_univ_F]; have := ten_lt_R; omega
+  · decide +kernel
+  · decide +kernel
+
+/-- **The explicit bad set of a failing row.** If `rowHolds` is `false`, the weighted row expression
+    is either non-zero for every choice of the challenges, or there is one separation challenge
+    (that of a failing widget) such that, whatever the other three, at most `7 / 9 / 7 / 5` values of
+    it make the expression vanish. -/
+theorem gate_sum_bad_set (g : Gate) (hg : SelReduced g) (a b c d an bn dn pi : Nat)
+    (h : rowHolds g a b c d an bn dn pi = false) :
+    let E := fun s : Seps F => gateSumR (Quot.selF g) (wiresF a b c d an bn dn) (toF pi) s
+    (∀ s, E s ≠ 0) ∨
+    (∀ l φ ν, ∀ S : Finset F, (∀ ρ ∈ S, E ⟨ρ, l, φ, ν⟩ = 0) → S.card ≤ 7) ∨
+    (∀ ρ φ ν, ∀ S : Finset F, (∀ l ∈ S, E ⟨ρ, l, φ, ν⟩ = 0) → S.card ≤ 9) ∨
+    (∀ ρ l ν, ∀ S : Finset F, (∀ φ ∈ S, E ⟨ρ, l, φ, ν⟩ = 0) → S.card ≤ 7) ∨
+    (∀ ρ l φ, ∀ S : Finset F, (∀ ν ∈ S, E ⟨ρ, l, φ, ν⟩ = 0) → S.card ≤ 5) :=
+  Quot.gate_sum_bad_set g hg a b c d an bn dn pi h
+
+/-- non-vacuity: a range row whose first quad is out of range (`c − 4d = −4`) -/
+example : SelReduced { qrange := 1 } ∧
+    rowHolds { qrange := 1 } 0 0 0 1 0 0 0 0 = false := by
+  refine ⟨⟨R_gt_one, R_pos, R_pos, R_pos⟩, ?_⟩
+  decide +kernel
+
+/-! ### 4. the numerator at a domain point -/
+
+/-- **The numerator polynomial at `ω^i`.** For arbitrary polynomials `P` (selectors, wires, public
+    inputs, sigmas, accumulator) the numerator polynomial
+    `Num = gate(A,B,C,D,A(ωX),B(ωX),D(ωX),Q,PI) + α·(perm identity) + α²·L₁·(Z − 1)` (`NumP`) takes at
+    `ω^i`, `i < n`, the value `N_i` (`numR`) computed from the values of the polynomials at row `i`
+    and of the wires and the accumulator at row `(i+1) mod n` — the next row is read cyclically over
+    the domain — with `L₁(ω^i) = [i = 0]`. -/
+theorem numerator_at_root {ω : F} {n : ℕ} (hn : 0 < n) (hω : IsPrimitiveRoot ω n)
+    (P : ProverPolys F) (ch : Chal F) (s : Seps F) {i : ℕ} (hi : i < n) :
+    (NumP ω n P ch s).eval (ω ^ i) =
+      numR (P.Q.map (eval (ω ^ i)))
+        ⟨P.a.eval (ω ^ i), P.b.eval (ω ^ i), P.c.eval (ω ^ i), P.d.eval (ω ^ i),
+          P.a.eval (ω ^ ((i + 1) % n)), P.b.eval (ω ^ ((i + 1) % n)),
+          P.d.eval (ω ^ ((i + 1) % n))⟩ (P.pi.eval (ω ^ i))
+        ⟨ω ^ i, P.s1.eval (ω ^ i), P.s2.eval (ω ^ i), P.s3.eval (ω ^ i), P.s4.eval (ω ^ i),
+          P.z.eval (ω ^ i), P.z.eval (ω ^ ((i + 1) % n)), if i = 0 then 1 else 0⟩ ch s :=
+  numerator_at_root_poly hω (natCast_ne_zero_of_prim hn hω) P ch s hi
+
+example : ∃ (ω : F) (n i : ℕ), 0 < n ∧ IsPrimitiveRoot ω n ∧ i < n ∧ (i + 1) % n = 0 := by
+  obtain ⟨d, hd, hs⟩ := exists_domain_two
+  exact ⟨toF d.groupGen, d.size, 1, (Domain.new?_WF 2 d hd).size_pos, (Domain.new?_WF 2 d hd).prim,
+    by omega, by rw [hs]⟩
+
+/-- the same on the model's table: for polynomials interpolating the table (`Interpolates`), the
+    numerator polynomial takes at `ω^i` the value `rowNum … i` built from rows `i` and `(i+1) mod n` of
+    the wire columns, the gate rows, the dense public inputs, the sigma values and the accumulator -/
+theorem numerator_on_table {ω : F} {n : ℕ} (hn : 0 < n) (hω : IsPrimitiveRoot ω n)
+    {P : ProverPolys F} {G : Nat → Gate} {roots aS bS cS dS piS : List Nat} {sigE : List (List Nat)}
+    {z : List Nat} (I : Interpolates ω n P G roots aS bS cS dS piS sigE z) (ch : Chal F) (s : Seps F)
+    {i : ℕ} (hi : i < n) :
+    (NumP ω n P ch s).eval (ω ^ i) = rowNum n G roots aS bS cS dS piS sigE z ch s i :=
+  NumP_eval_root hn hω I ch s hi
+
+/-- the polynomials the specification prover builds (`ifft` selector / sigma / public-input columns,
+    `blindPoly` wires and accumulator with any blinders) interpolate the table -/
+theorem model_polys_interpolate (m : Nat) (d : Domain) (hd : Domain.new? m = some d) (G : Nat → Gate)
+    (aS bS cS dS piS : List Nat) (sigE : List (List Nat)) (z ba bb bc bd bz : List Nat)
+    (ha : aS.length = d.size) (hb : bS.length = d.size) (hc : cS.length = d.size)
+    (hdd : dS.length = d.size) (hpi : piS.length = d.size) (hzl : z.length = d.size)
+    (hs : ∀ j < 4, (sigE.getD j []).length = d.size) :
+    Interpolates (toF d.groupGen) d.size (modelPolys d G aS bS cS dS piS sigE z ba bb bc bd bz) G
+      d.elements aS bS cS dS piS sigE z :=
+  modelPolys_interpolates (Domain.new?_WF m d hd) G d.elements aS bS cS dS piS sigE z ba bb bc bd bz
+    (elements_roots d) ha hb hc hdd hpi hzl hs
+
+example : ∃ d, Domain.new? 2 = some d ∧ ([1, 2] : List Nat).length = d.size ∧
+    ∀ j < 4, ((exSig d).getD j []).length = d.size := by
+  obtain ⟨d, hd, hs⟩ := exists_domain_two
+  exact ⟨d, hd, by rw [hs]; rfl, exSig_length d⟩
+
+/-- **The coset quotient.** If the arrays handed to the model's `quotientEvals` store at index `i`
+    (and `i + 8` for the shifted reads) the values of the prover's polynomials at a point `x` with
+    `xⁿ ≠ 1` and at `ωx` (`StoresAt`), entry `i` is the value at `x` of `Num / (Xⁿ − 1)`; if
+    `Num = (Xⁿ − 1)·T` it is `T(x)`. -/
+theorem quotient_entry_is_coset_eval {ω x : F} {n : Nat} (hx : x ^ n ≠ 1) (P : ProverPolys F)
+    (size8 : Nat) (selE sigE8 : Array (Array Nat))
+    (linE aE bE cE dE zE piE vh vhInv8 l1Den : Array Nat)
+    (nInv8 beta gamma alpha rSep lSep fSep vSep : Nat) (i : Nat) (hi : i < size8)
+    (St : StoresAt ω x n P selE sigE8 linE aE bE cE dE zE piE vh vhInv8 l1Den nInv8 i) :
+    toF ((quotientEvals size8 selE sigE8 linE aE bE cE dE zE piE vh vhInv8 l1Den nInv8 beta gamma
+        alpha rSep lSep fSep vSep).getD i 0) =
+      (NumP ω n P ⟨toF beta, toF gamma, toF alpha⟩ ⟨toF rSep, toF lSep, toF fSep, toF vSep⟩).eval x *
+        (x ^ n - 1)⁻¹ ∧
+    ∀ T : F[X],
+      NumP ω n P ⟨toF beta, toF gamma, toF alpha⟩ ⟨toF rSep, toF lSep, toF fSep, toF vSep⟩ =
+        (X ^ n - 1) * T →
+      toF ((quotientEvals size8 selE sigE8 linE aE bE cE dE zE piE vh vhInv8 l1Den nInv8 beta gamma
+        alpha rSep lSep fSep vSep).getD i 0) = T.eval x :=
+  ⟨quotient_entry_coset hx P size8 _ _ _ _ _ _ _ _ _ _ _ _ _ _ _ _ _ _ _ _ i hi St,
+   fun T hT => quotient_entry_coset_of_dvd hx P size8 _ _ _ _ _ _ _ _ _ _ _ _ _ _ _ _ _ _ _ _ i hi St
+     T hT⟩
+
+/-- non-vacuity: arrays storing the values of `exP` at `x = 2` (and at `ωx`, eight places further) -/
+example : ((2 : F) ^ 2 ≠ 1) ∧ (0 < 1) ∧
+    StoresAt (-1) (2 : F) 2 exP #[] #[] #[2] #[4, 0, 0, 0, 0, 0, 0, 0, 4] #[] #[] #[]
+      #[1, 0, 0, 0, 0, 0, 0, 0, 1] #[] #[3] #[finv 3] #[1] (finv 2) 0 := by
+  have h3 := three_ne_zero_F
+  refine ⟨?_, by omega, ?_⟩
+  · intro h
+    apply h3
+    have : (3 : F) = 2 ^ 2 - 1 := by norm_num
+    rw [this, h, sub_self]
+  · constructor <;> simp [selAt, Sel.map, exP, toF_finv] <;> norm_num
+
+/-- **The quotient evaluations inside `prove`.** For the two domains of `prove` (`d` of size `n`, `d8`
+    of size `8n`) and arbitrary coefficient lists for the selector / sigma / wire / accumulator /
+    public-input polynomials, entry `i < 8n` of `quotientEvals` called on the arrays that `compile`
+    and `prove` build (`cosetFft` of the key polynomials, `cosetEvals` with 8 wrap-around entries,
+    `cosetFft [0,1]`, `vanishingOverCoset`, the two batch inversions, `nInv8 = sizeInv₈·8`) is
+    `Num(x_i) / (x_iⁿ − 1)` at the coset point `x_i = g·ω₈^i`, which is never a root of `Xⁿ − 1`; the
+    shifted reads at `i + 8` are the values at `ω·x_i`, `ω = ω₈⁸` the generator of `d`. -/
+theorem quotient_in_prove (m : Nat) (d d8 : Domain) (hd : Domain.new? m = some d)
+    (hd8 : Domain.new? (8 * d.size) = some d8) (sel sigma : Array Poly) (aP bP cP dP zP piP : Poly)
+    (vh linE : Array Nat) (hvh : vh = (d8.vanishingOverCoset d.size).toArray)
+    (hlin : linE = (d8.cosetFft [0, 1]).toArray)
+    (beta gamma alpha rSep lSep fSep vSep : Nat) (i : Nat) (hi : i < d8.size) :
+    d8.size = 8 * d.size ∧ toF d8.groupGen ^ 8 = toF d.groupGen ∧
+    (toF GENERATOR * toF d8.groupGen ^ i) ^ d.size ≠ 1 ∧
+    toF ((quotientEvals d8.size (sel.map fun p => (d8.cosetFft p).toArray)
+        (sigma.map fun p => (d8.cosetFft p).toArray) linE (cosetEvals d8 aP) (cosetEvals d8 bP)
+        (cosetEvals d8 cP) (cosetEvals d8 dP) (cosetEvals d8 zP) (d8.cosetFft piP).toArray vh
+        (batchInversion ((vh.toList).take 8)).toArray
+        (batchInversion (linE.toList.map fun e => fsub e 1)).toArray (fmul d8.sizeInv 8)
+        beta gamma alpha rSep lSep fSep vSep).getD i 0) =
+      (NumP (toF d.groupGen) d.size (polysOf sel sigma aP bP cP dP zP piP)
+          ⟨toF beta, toF gamma, toF alpha⟩ ⟨toF rSep, toF lSep, toF fSep, toF vSep⟩).eval
+        (toF GENERATOR * toF d8.groupGen ^ i) *
+        ((toF GENERATOR * toF d8.groupGen ^ i) ^ d.size - 1)⁻¹ :=
+  ⟨(gen8_pow_eight m d d8 hd hd8).1, (gen8_pow_eight m d d8 hd hd8).2,
+   coset_pow_ne_one m d d8 hd hd8 i,
+   quotient_entry_prove m d d8 hd hd8 sel sigma aP bP cP dP zP piP vh linE hvh hlin beta gamma alpha
+     rSep lSep fSep vSep i hi⟩
+
+/-- non-vacuity: the two domains exist for `n = 2` -/
+example : ∃ d d8, Domain.new? 2 = some d ∧ Domain.new? (8 * d.size) = some d8 ∧ 3 < d8.size := by
+  obtain ⟨d, hd, hs⟩ := exists_domain_two
+  have h : (Domain.new? 16).isSome = true := by decide +kernel
+  obtain ⟨d8, hd8⟩ := Option.isSome_iff_exists.mp h
+  have h16 : Domain.new? (8 * d.size) = some d8 := by rw [hs]; exact hd8
+  exact ⟨d, d8, hd, h16, by rw [(gen8_pow_eight 2 d d8 hd h16).1, hs]; omega⟩
+
+/-! ### 5. the grand product -/
+
+/-- **Grand product on the model's `permVec`.** When `permVec` returns `some z` (it returns `none`
+    exactly when a denominator vanishes — the Rust code asserts): `z` has `n` entries, `z₀ = 1`, no
+    denominator is zero, the permutation step `num_i·z_i − den_i·z_{i+1}` vanishes on every row
+    `i < n − 1`, and the wrap-around step of row `n − 1` (next row `0`) vanishes iff
+    `∏ num_i = ∏ den_i`. -/
+theorem grand_product (n : Nat) (hn : 0 < n) (roots aS bS cS dS : List Nat)
+    (sigE : List (List Nat)) (beta gamma : Nat) (z : List Nat)
+    (h : permVec n roots aS bS cS dS sigE beta gamma = some z) :
+    z.length = n ∧ toF (z.getD 0 0) = 1 ∧
+    (∀ i < n, denF aS bS cS dS sigE beta gamma i ≠ 0) ∧
+    (∀ i, i + 1 < n → permStepAt n roots aS bS cS dS sigE beta gamma z i = 0) ∧
+    (permStepAt n roots aS bS cS dS sigE beta gamma z (n - 1) = 0 ↔
+      ∏ i ∈ Finset.range n, numF roots aS bS cS dS beta gamma i =
+        ∏ i ∈ Finset.range n, denF aS bS cS dS sigE beta gamma i) :=
+  permVec_grand_product n hn roots aS bS cS dS sigE beta gamma z h
+
+example : ∃ (n : Nat) (roots sig : _) (z : List Nat), 0 < n ∧
+    permVec n roots [1, 2] [2, 3] [3, 5] [0, 0] sig 5 9 = some z := by
+  obtain ⟨d, z, _, hs, hz⟩ := ex_permVec
+  exact ⟨d.size, d.elements, exSig d, z, by omega, hz⟩
+
+/-! ### 6. exactness -/
+
+/-- **Exactness on row values.** With the accumulator of the model's `permVec`: all numerator
+    values `N_i = gateSum_i(ρ,λ,φ,ν) + α·permStep_i + α²·L₁(ω^i)·(z_i − 1)` (`rowNum`, rows `i` and
+    `(i+1) mod n`) vanish for every `α` of a set with at least two elements and every separation
+    challenge of a grid with more than `7 / 9 / 7 / 5` values per axis iff every row identity of the
+    model holds (`rowOK`: `Plonk.rowHolds` with the next row `(i+1) mod n`) and `∏ num = ∏ den`. -/
+theorem prover_exact_rows (n : Nat) (hn : 0 < n) (G : Nat → Gate) (hG : ∀ i < n, SelReduced (G i))
+    (roots aS bS cS dS piS : List Nat) (sigE : List (List Nat)) (beta gamma : Nat) (z : List Nat)
+    (hz : permVec n roots aS bS cS dS sigE beta gamma = some z)
+    (Sα Sr Sl Sf Sv : Finset F) (hα : 1 < Sα.card) (hr : 7 < Sr.card) (hl : 9 < Sl.card)
+    (hf : 7 < Sf.card) (hv : 5 < Sv.card) :
+    (∀ α ∈ Sα, ∀ ρ ∈ Sr, ∀ l ∈ Sl, ∀ φ ∈ Sf, ∀ ν ∈ Sv, ∀ i < n,
+      rowNum n G roots aS bS cS dS piS sigE z ⟨toF beta, toF gamma, α⟩ ⟨ρ, l, φ, ν⟩ i = 0) ↔
+    (∀ i < n, rowOK n G aS bS cS dS piS i) ∧
+      ∏ i ∈ Finset.range n, numF roots aS bS cS dS beta gamma i =
+        ∏ i ∈ Finset.range n, denF aS bS cS dS sigE beta gamma i :=
+  prover_exact_model n hn G hG roots aS bS cS dS piS sigE beta gamma z hz Sα Sr Sl Sf Sv hα hr hl hf hv
+
+/-- **Exactness for interpolating polynomials**: the same with "`X^n − 1` divides the numerator
+    polynomial" on the left. -/
+theorem prover_exact_interpolating {ω : F} {n : ℕ} (hn : 0 < n) (hω : IsPrimitiveRoot ω n)
+    (P : ProverPolys F) (G : Nat → Gate) (hG : ∀ i < n, SelReduced (G i))
+    (roots aS bS cS dS piS : List Nat) (sigE : List (List Nat)) (beta gamma : Nat) (z : List Nat)
+    (hz : permVec n roots aS bS cS dS sigE beta gamma = some z)
+    (I : Interpolates ω n P G roots aS bS cS dS piS sigE z)
+    (Sα Sr Sl Sf Sv : Finset F) (hα : 1 < Sα.card) (hr : 7 < Sr.card) (hl : 9 < Sl.card)
+    (hf : 7 < Sf.card) (hv : 5 < Sv.card) :
+    (∀ α ∈ Sα, ∀ ρ ∈ Sr, ∀ l ∈ Sl, ∀ φ ∈ Sf, ∀ ν ∈ Sv,
+      (X ^ n - 1 : F[X]) ∣ NumP ω n P ⟨toF beta, toF gamma, α⟩ ⟨ρ, l, φ, ν⟩) ↔
+    (∀ i < n, rowOK n G aS bS cS dS piS i) ∧
+      ∏ i ∈ Finset.range n, numF roots aS bS cS dS beta gamma i =
+        ∏ i ∈ Finset.range n, denF aS bS cS dS sigE beta gamma i :=
+  prover_exact_poly hn hω P G hG roots aS bS cS dS piS sigE beta gamma z hz I Sα Sr Sl Sf Sv hα hr hl
+    hf hv
+
+/-- **Prover exactness, algebraic half.** For a domain of `Domain.new?` (size `n`), a padded table of
+    `n` rows (gate rows `G`, wire columns, dense public inputs, sigma values), the accumulator `z` of
+    the model's `permVec` over `d.elements`, and the polynomials the specification prover builds from
+    them (`ifft` columns; wires and accumulator blinded by `blindPoly` with *any* blinders):
+    the vanishing polynomial `X^n − 1` divides the quotient numerator
+    `gate + α·perm + α²·L₁·(Z − 1)` for every `α` of a set with at least two elements and every
+    `(ρ, λ, φ, ν)` of a grid with more than `7 / 9 / 7 / 5` values per axis
+    **iff** every row identity of the model (`Plonk.rowHolds`: arithmetic with public input, range,
+    logic, fixed-base, variable-base) holds on every row of the padded table with the next-row wires
+    read cyclically **and** the grand products of the permutation argument agree. -/
+theorem prover_exact_algebra (m : Nat) (d : Domain) (hd : Domain.new? m = some d)
+    (G : Nat → Gate) (hG : ∀ i < d.size, SelReduced (G i))
+    (aS bS cS dS piS : List Nat) (sigE : List (List Nat)) (beta gamma : Nat) (z : List Nat)
+    (ba bb bc bd bz : List Nat)
+    (ha : aS.length = d.size) (hb : bS.length = d.size) (hc : cS.length = d.size)
+    (hdd : dS.length = d.size) (hpi : piS.length = d.size)
+    (hs : ∀ j < 4, (sigE.getD j []).length = d.size)
+    (hz : permVec d.size d.elements aS bS cS dS sigE beta gamma = some z)
+    (Sα Sr Sl Sf Sv : Finset F) (hα : 1 < Sα.card) (hr : 7 < Sr.card) (hl : 9 < Sl.card)
+    (hf : 7 < Sf.card) (hv : 5 < Sv.card) :
+    (∀ α ∈ Sα, ∀ ρ ∈ Sr, ∀ l ∈ Sl, ∀ φ ∈ Sf, ∀ ν ∈ Sv,
+      (X ^ d.size - 1 : F[X]) ∣
+        NumP (toF d.groupGen) d.size (modelPolys d G aS bS cS dS piS sigE z ba bb bc bd bz)
+          ⟨toF beta, toF gamma, α⟩ ⟨ρ, l, φ, ν⟩) ↔
+    (∀ i < d.size, rowOK d.size G aS bS cS dS piS i) ∧
+      ∏ i ∈ Finset.range d.size, numF d.elements aS bS cS dS beta gamma i =
+        ∏ i ∈ Finset.range d.size, denF aS bS cS dS sigE beta gamma i :=
+  prover_exact_modelPolys m d hd G hG aS bS cS dS piS sigE beta gamma z ba bb bc bd bz ha hb hc hdd hpi
+    hs hz Sα Sr Sl Sf Sv hα hr hl hf hv
+
+/-- non-vacuity: the two-row instance `1 + 2 = 3`, `2 + 3 = 5` over the domain of size 2 with the
+    identity permutation satisfies every hypothesis (with the full field as challenge sets), and its
+    rows hold -/
+example : ∃ (d : Domain) (z : List Nat), Domain.new? 2 = some d ∧
+    (∀ i < d.size, SelReduced (exG i)) ∧
+    ([1, 2] : List Nat).length = d.size ∧ ([2, 3] : List Nat).length = d.size ∧
+    ([3, 5] : List Nat).length = d.size ∧ ([0, 0] : List Nat).length = d.size ∧
+    (∀ j < 4, ((exSig d).getD j []).length = d.size) ∧
+    permVec d.size d.elements [1, 2] [2, 3] [3, 5] [0, 0] (exSig d) 5 9 = some z ∧
+    1 < (Finset.univ : Finset F).card ∧ 9 < (Finset.univ : Finset F).card ∧
+    (∀ i < d.size, rowOK d.size exG [1, 2] [2, 3] [3, 5] [0, 0] [0, 0] i) := by
+  obtain ⟨d, z, hd, hs, hz⟩ := ex_permVec
+  have hc : 10 < (Finset.univ : Finset F).card := by rw [card_univ_F]; exact ten_lt_R
+  refine ⟨d, z, hd, fun _ _ => ⟨R_pos, R_pos, R_pos, R_pos⟩, by rw [hs]; rfl, by rw [hs]; rfl,
+    by rw [hs]; rfl, by rw [hs]; rfl, exSig_length d, hz, by omega, by omega, ?_⟩
+  rw [hs]
+  intro i hi
+  unfold rowOK exG
+  interval_cases i <;> decide +kernel
+
+/-! ### `quotient_len_rule` (documentation only — handled by another agent)
+
+  The code's detection rule: with `quot` the coset values of `Num·Z_H⁻¹` (`quotientEvals`, item 4) and
+  `tPoly := ofCoeffs (cosetIfft quot)` the interpolant on the coset of size `8n`, `prove` returns
+  `circuitUnsatisfied` iff `tPoly.length > 7n`.  Intended meaning: `len > 7n ⇔ Num mod (X^n − 1) ≠ 0`,
+  i.e. (items 2 and 6) iff some row identity fails or the grand products differ.  Not stated as a
+  theorem in this file. -/
+
 end Plonk.Props.C05
